@@ -141,7 +141,7 @@ def floors(tier):
             "observed.reference.trap": 200, "observed.agree.trap.python": 50,
             "observed.build.components": 100, "observed.build.bytes": 100,
             "observed.cmp_consumers": len(CMP_SHAPES), "observed.cmp_consumers.if_eqz": 1000,
-            "observed.features.cmp.negated": 100, "observed.features.cmp.special_operand": 200}
+            "observed.features.cmp_negated": 100, "observed.features.cmp_special_operand": 200}
 
 
 # ---------------------------------------------------------------------------
